@@ -167,7 +167,7 @@ func init() {
 		ID: "C20",
 		Explanation: "Decides structural necessary conditions of concurrency safety of contexts, plugins and the stdio service (not absence of all races or liveness): R1 guarded-by: every read/write of the listed shared fields (build-context state, service state, watcher and serve-handler state, caches) happens with the owning mutex in the must-hold lock set (intraprocedural dataflow with defer handling and one level of call-site binding), or is a reviewed entry; R2 every Lock is released on all exits (or deferred), and no blocking operation (WaitGroup.Wait, plugin/rebuild call, channel op) runs while a context/service mutex is held; R3 Rebuild/Cancel/Dispose join semantics (Add and activeBuild publication in one critical section, activeBuild cleared under the lock before Done, Cancel/Dispose wait for the snapshotted build, didDispose tested under the lock by every public method); R4 each stdio request gets exactly one response carrying its own id on every path, and every goroutine of the handler is accounted in the keep-alive wait group; R5 on-start callbacks complete before anything that can reach resolve/load callbacks, and on-end callbacks run after the output-writing wait and on every path. R3 also decides that no return of Cancel/Dispose is reachable without Wait or the activeBuild-is-nil edge. R6 goroutine-private-slots (E-SLOT). R7 lock-order: the module-wide lock-order graph (mutex B acquired directly or through static callees while mutex A is in the must-hold set) has no cycle; no mutex is locked, directly or by a callee on the same object, while already held. NOT covered: data races on fields outside the table, liveness under arbitrary plugin behaviour, the TypeScript side of the protocol.",
 		Run: func(p *Prog, tier string) []*RuleResult {
-			return []*RuleResult{c20GuardedBy(p), c20LockBalance(p), c20JoinSemantics(p), c20OneResponse(p), c20CallbackOrdering(p), goroutinePrivateSlots(p, "C20/R6 goroutine-private-slots"), c20LockOrder(p), spawnThenWrite(p, "C20/R8 spawn-then-write")}
+			return []*RuleResult{c20GuardedBy(p), c20LockBalance(p), c20JoinSemantics(p), c20OneResponse(p), c20CallbackOrdering(p), goroutinePrivateSlots(p, "C20/R6 goroutine-private-slots"), c20LockOrder(p), spawnThenWrite(p, "C20/R8 spawn-then-write"), c20MangleCachePerBuild(p)}
 		},
 	})
 }
@@ -1152,4 +1152,46 @@ func takesAnyMutex(fn *ssa.Function) bool {
 		}
 	})
 	return found
+}
+
+// C20/R9 per-build copy of the mangle cache.
+//
+// The linker writes new name assignments into the mangle-cache map it is given and the same map
+// is returned to the caller as BuildResult.MangleCache. Each build must therefore work on its own
+// copy: with one map per context, a rebuild's result contains entries of earlier builds (and picks
+// names around them), an already returned BuildResult changes under its reader, and a reader of
+// result N races with build N+1.
+// Rule: the mangle-cache argument of every (*Bundle).Compile call is the result of a
+// cloneMangleCache call made in the same function (i.e. per build).
+func c20MangleCachePerBuild(p *Prog) *RuleResult {
+	r := NewRule("C20/R9 mangle-cache-per-build", "the mangle cache handed to the linker (and returned in the build result) is cloned from the user's map once per build, never shared between the builds of a context")
+	n := 0
+	for _, fn := range p.ModuleFuncs() {
+		eachInstr(fn, func(b *ssa.BasicBlock, in ssa.Instruction) {
+			c, ok := in.(*ssa.Call)
+			if !ok || FuncNameOf(c) != "bundler.(*Bundle).Compile" || len(c.Call.Args) < 4 {
+				return
+			}
+			n++
+			r.Instances++
+			key := FuncName(fn) + " mangle cache given to Compile"
+			fresh := false
+			backSlice(c.Call.Args[3], func(v ssa.Value) bool {
+				if cc, ok := v.(*ssa.Call); ok {
+					if strings.HasSuffix(FuncNameOf(cc), "cloneMangleCache") && cc.Parent() == fn {
+						fresh = true
+					}
+					return false
+				}
+				return true
+			})
+			if fresh {
+				r.OK(key, true, "the result of a cloneMangleCache call in the same function")
+			} else {
+				r.Fail(key, p.Pos(c.Pos()), "the map given to the linker is not a per-build clone: the linker writes the names it assigns into it, so builds of one context share and mutate one map (results mix builds, an earlier BuildResult changes after it was returned, concurrent readers race)")
+			}
+		})
+	}
+	r.Anchor("calls of (*Bundle).Compile", n >= 1)
+	return r
 }
